@@ -180,7 +180,16 @@ class OmegaAdapter(Adapter):
                 w['stage'] = 'rejected'
                 return {'ret': 'raises', '_class': type(ex).__name__}
             w['stage'] = was if was in ('built', 'evaluated') else 'calculated'
-            return {'ret': self.verbatim(w, ret), '_k_untouched': bool(np.array_equal(k, w['k']))}
+            out = {'ret': self.verbatim(w, ret), '_k_untouched': bool(np.array_equal(k, w['k']))}
+            if w['src']['origin'] in ('file1', 'file2') and isinstance(ret, np.ndarray):
+                # the values read from a FILE are handed to the caller, who may scale them in place (omega *= rho); the file is the
+                # stored data: the next evaluation returns it unchanged.  (FromArray documents nothing of the kind: its calculate
+                # returns the stored array itself in the shipped code, so arrays are left alone here.)
+                try:
+                    ret[...] = -7.0
+                except (ValueError, TypeError):
+                    pass
+            return out
         if act == 'Probe':
             k = np.array(w['k'], dtype=float)
             n = len(k)
